@@ -1,22 +1,25 @@
-package main
+package tutil
 
 import (
+	"bytes"
+	"flag"
 	"fmt"
 	"go/ast"
 	"go/parser"
 	"go/token"
+	"os"
 	"path/filepath"
 	"strconv"
 	"strings"
 )
 
-func parseFile(repo, rel string) (*token.FileSet, *ast.File, error) {
+func ParseFile(repo, rel string) (*token.FileSet, *ast.File, error) {
 	fset := token.NewFileSet()
 	f, err := parser.ParseFile(fset, filepath.Join(repo, rel), nil, parser.ParseComments)
 	return fset, f, err
 }
 
-func sanitizeComment(s string) string {
+func SanitizeComment(s string) string {
 	s = strings.ReplaceAll(s, "*)", "* )")
 	s = strings.ReplaceAll(s, "(*", "( *")
 	return s
@@ -24,7 +27,7 @@ func sanitizeComment(s string) string {
 
 // coqString renders a Go string as a Coq string literal (ASCII printable only;
 // other bytes are dropped — used for diagnostics only).
-func coqString(s string) string {
+func CoqString(s string) string {
 	var b strings.Builder
 	b.WriteByte('"')
 	for _, r := range s {
@@ -42,7 +45,7 @@ func coqString(s string) string {
 }
 
 // coqText renders a Go string as a Gallina term of type str (code points).
-func coqText(s string) string {
+func CoqText(s string) string {
 	ascii := true
 	for _, r := range s {
 		if r < 32 || r >= 127 || r == '"' {
@@ -50,7 +53,7 @@ func coqText(s string) string {
 		}
 	}
 	if ascii {
-		return fmt.Sprintf("(tx %s)", coqString(s))
+		return fmt.Sprintf("(tx %s)", CoqString(s))
 	}
 	var parts []string
 	for _, r := range s {
@@ -59,19 +62,19 @@ func coqText(s string) string {
 	return "[" + strings.Join(parts, "; ") + "]%N"
 }
 
-func coqList(items []string) string {
+func CoqList(items []string) string {
 	return "[" + strings.Join(items, "; ") + "]"
 }
 
-func coqTextList(ss []string) string {
+func CoqTextList(ss []string) string {
 	var items []string
 	for _, s := range ss {
-		items = append(items, coqText(s))
+		items = append(items, CoqText(s))
 	}
-	return coqList(items)
+	return CoqList(items)
 }
 
-func coqBytes(bs []byte) string {
+func CoqBytes(bs []byte) string {
 	var parts []string
 	for _, b := range bs {
 		parts = append(parts, strconv.Itoa(int(b)))
@@ -79,7 +82,7 @@ func coqBytes(bs []byte) string {
 	return "[" + strings.Join(parts, "; ") + "]%N"
 }
 
-func unquote(l *ast.BasicLit) (string, error) {
+func Unquote(l *ast.BasicLit) (string, error) {
 	if l.Kind != token.STRING {
 		return "", fmt.Errorf("not a string literal: %s", l.Value)
 	}
@@ -87,7 +90,7 @@ func unquote(l *ast.BasicLit) (string, error) {
 }
 
 // findVar returns the value expression of a package-level `var name = ...`.
-func findVar(f *ast.File, name string) ast.Expr {
+func FindVar(f *ast.File, name string) ast.Expr {
 	for _, d := range f.Decls {
 		gd, ok := d.(*ast.GenDecl)
 		if !ok || gd.Tok != token.VAR {
@@ -105,7 +108,7 @@ func findVar(f *ast.File, name string) ast.Expr {
 	return nil
 }
 
-func findFunc(f *ast.File, name string) *ast.FuncDecl {
+func FindFunc(f *ast.File, name string) *ast.FuncDecl {
 	for _, d := range f.Decls {
 		if fd, ok := d.(*ast.FuncDecl); ok && fd.Name.Name == name && fd.Recv == nil {
 			return fd
@@ -114,7 +117,7 @@ func findFunc(f *ast.File, name string) *ast.FuncDecl {
 	return nil
 }
 
-func findMethod(f *ast.File, recv, name string) *ast.FuncDecl {
+func FindMethod(f *ast.File, recv, name string) *ast.FuncDecl {
 	for _, d := range f.Decls {
 		fd, ok := d.(*ast.FuncDecl)
 		if !ok || fd.Name.Name != name || fd.Recv == nil || len(fd.Recv.List) != 1 {
@@ -131,7 +134,7 @@ func findMethod(f *ast.File, recv, name string) *ast.FuncDecl {
 	return nil
 }
 
-func findStruct(f *ast.File, name string) *ast.StructType {
+func FindStruct(f *ast.File, name string) *ast.StructType {
 	for _, d := range f.Decls {
 		gd, ok := d.(*ast.GenDecl)
 		if !ok || gd.Tok != token.TYPE {
@@ -153,7 +156,7 @@ func findStruct(f *ast.File, name string) *ast.StructType {
 // blocks (with implicit repetition and `_` placeholders) and simple
 // `iota`-free conversions. Returns name -> value for those it understands, and
 // the string constants separately.
-func constValues(f *ast.File) (map[string]int64, map[string]string) {
+func ConstValues(f *ast.File) (map[string]int64, map[string]string) {
 	ints := map[string]int64{}
 	strs := map[string]string{}
 	for _, d := range f.Decls {
@@ -175,7 +178,7 @@ func constValues(f *ast.File) (map[string]int64, map[string]string) {
 				if e == nil {
 					continue
 				}
-				if v, ok := evalInt(e, int64(idx), ints); ok {
+				if v, ok := EvalInt(e, int64(idx), ints); ok {
 					if n.Name != "_" {
 						ints[n.Name] = v
 					}
@@ -190,7 +193,7 @@ func constValues(f *ast.File) (map[string]int64, map[string]string) {
 	return ints, strs
 }
 
-func evalInt(e ast.Expr, iota int64, env map[string]int64) (int64, bool) {
+func EvalInt(e ast.Expr, iota int64, env map[string]int64) (int64, bool) {
 	switch x := e.(type) {
 	case *ast.BasicLit:
 		if x.Kind == token.INT {
@@ -205,14 +208,14 @@ func evalInt(e ast.Expr, iota int64, env map[string]int64) (int64, bool) {
 			return v, true
 		}
 	case *ast.ParenExpr:
-		return evalInt(x.X, iota, env)
+		return EvalInt(x.X, iota, env)
 	case *ast.CallExpr: // conversion T(x)
 		if len(x.Args) == 1 {
-			return evalInt(x.Args[0], iota, env)
+			return EvalInt(x.Args[0], iota, env)
 		}
 	case *ast.BinaryExpr:
-		a, ok1 := evalInt(x.X, iota, env)
-		b, ok2 := evalInt(x.Y, iota, env)
+		a, ok1 := EvalInt(x.X, iota, env)
+		b, ok2 := EvalInt(x.Y, iota, env)
 		if ok1 && ok2 {
 			switch x.Op {
 			case token.ADD:
@@ -230,7 +233,7 @@ func evalInt(e ast.Expr, iota int64, env map[string]int64) (int64, bool) {
 }
 
 // structTag extracts key:"value" from a raw struct tag literal.
-func structTag(tag *ast.BasicLit, key string) (string, bool) {
+func StructTag(tag *ast.BasicLit, key string) (string, bool) {
 	if tag == nil {
 		return "", false
 	}
@@ -258,20 +261,55 @@ func structTag(tag *ast.BasicLit, key string) (string, bool) {
 	return "", false
 }
 
-func exprString(e ast.Expr) string {
+func ExprString(e ast.Expr) string {
 	switch x := e.(type) {
 	case *ast.Ident:
 		return x.Name
 	case *ast.SelectorExpr:
-		return exprString(x.X) + "." + x.Sel.Name
+		return ExprString(x.X) + "." + x.Sel.Name
 	case *ast.StarExpr:
-		return "*" + exprString(x.X)
+		return "*" + ExprString(x.X)
 	case *ast.ArrayType:
-		return "[]" + exprString(x.Elt)
+		return "[]" + ExprString(x.Elt)
 	case *ast.MapType:
-		return "map[" + exprString(x.Key) + "]" + exprString(x.Value)
+		return "map[" + ExprString(x.Key) + "]" + ExprString(x.Value)
 	case *ast.InterfaceType:
 		return "interface{}"
 	}
 	return fmt.Sprintf("%T", e)
+}
+
+// Emit writes a generated Gallina file (only when its content changed).
+func Emit(outDir, name string, body func(w *bytes.Buffer) error) {
+	var b bytes.Buffer
+	fmt.Fprintf(&b, "(* GENERATED by /verif/translator from the repository working tree - do not edit. *)\n")
+	fmt.Fprintf(&b, "From Verif Require Import Lib.Base.\n\n")
+	if err := body(&b); err != nil {
+		fmt.Fprintf(os.Stderr, "translator: %s: unrecognised source shape: %v\n", name, err)
+		fmt.Fprintf(&b, "\n(* TRANSLATOR: unrecognised source shape: %s *)\n", SanitizeComment(err.Error()))
+		fmt.Printf("translator: %s: unrecognised: %v\n", name, err)
+	}
+	path := filepath.Join(outDir, name+".v")
+	old, _ := os.ReadFile(path)
+	if !bytes.Equal(old, b.Bytes()) {
+		if err := os.MkdirAll(outDir, 0o755); err != nil {
+			panic(err)
+		}
+		if err := os.WriteFile(path, b.Bytes(), 0o644); err != nil {
+			panic(err)
+		}
+		fmt.Printf("translator: wrote %s\n", path)
+	}
+}
+
+// Args parses the common flags of a translator command.
+func Args() (repo, out string) {
+	r := flag.String("repo", "/repo", "repository root")
+	o := flag.String("out", "", "output directory (coq/Generated)")
+	flag.Parse()
+	if *o == "" {
+		fmt.Fprintln(os.Stderr, "need -out")
+		os.Exit(2)
+	}
+	return *r, *o
 }
